@@ -69,3 +69,28 @@ Print Assumptions C05_has_next_queries_do_not_matter.
 Print Assumptions C05_reused_tokenizer_returns_the_tokens_of_a_fresh_one.
 Print Assumptions C05_mustache_tokenizer_history_independent.
 Print Assumptions C05_builtin_tokenizers_reinitialise.
+
+(* State space: the objects this property's model stands for have exactly the fields the model accounts for (StateSpace.v;
+   gen/StateSpaceGen.v is regenerated from the Go sources on every run). A new field - a cache, a memo, a counter - is state
+   the model does not have, so the theorems above would no longer be about the object. *)
+From Coq Require Import String.
+Require Import StateSpaceGen StateSpace.
+Open Scope string_scope.
+Theorem C05_state_space :
+  fields_of "tokenizers.AbstractTokenizer" = fields ["Overrides"; "mp"; "skipUnknown"; "skipWhitespaces"; "skipComments"; "skipEof"; "mergeWhitespaces"; "unifyNumbers"; "decodeStrings"; "commentState"; "numberState"; "quoteState"; "symbolState"; "whitespaceState"; "wordState"; "Scanner"; "NextTokenValue"; "LastTokenType"] /\
+  fields_of "io.StringScanner" = fields ["content"; "position"; "line"; "column"] /\
+  fields_of "tokenizers/generic.SymbolNode" = fields ["parent"; "character"; "children"; "tokenType"; "valid"; "ancestry"] /\
+  fields_of "calculator/parsers.ExpressionParser" = fields ["tokenizer"; "expression"; "originalTokens"; "initialTokens"; "currentTokenIndex"; "variableNames"; "resultTokens"] /\
+  fields_of "calculator.ExpressionCalculator" = fields ["defaultVariables"; "defaultFunctions"; "variantOperations"; "parser"; "autoVariables"] /\
+  fields_of "mustache/parsers.MustacheParser" = fields ["tokenizer"; "template"; "originalTokens"; "initialTokens"; "currentTokenIndex"; "variableNames"; "resultTokens"] /\
+  fields_of "mustache.MustacheTemplate" = fields ["defaultVariables"; "parser"; "autoVariables"] /\
+  fields_of "mustache/tokenizers.MustacheTokenizer" = fields ["embedded *tokenizers.AbstractTokenizer"; "special"; "specialState"] /\
+  fields_of "csv.CsvTokenizer" = fields ["embedded *tokenizers.AbstractTokenizer"; "fieldSeparators"; "quoteSymbols"; "endOfLine"].
+Proof. vm_compute. repeat split; reflexivity. Qed.
+Require Import StateSpaceAll.
+(* ... and the library as a whole has no struct field and no package-level variable beyond the accounted ones: no hidden
+   state through which one call, instance or goroutine could reach another *)
+Theorem C05_no_hidden_state : go_structs = enc_structs /\ go_package_vars = enc_vars.
+Proof. exact (conj structs_accounted package_vars_accounted). Qed.
+Print Assumptions C05_no_hidden_state.
+Print Assumptions C05_state_space.
